@@ -13,14 +13,14 @@ use tracing::{trace, warn};
 #[cfg(not(feature = "verif-hooks"))]
 use instant::{Duration, Instant};
 #[cfg(feature = "verif-hooks")]
-use crate::verif_hooks::{rand, HashMap, Instant};
+use crate::verif_hooks::{rand, HashMap, HashSet, Instant};
 #[cfg(feature = "verif-hooks")]
 use instant::Duration;
 use std::collections::vec_deque::Drain;
 #[cfg(not(feature = "verif-hooks"))]
 use std::collections::{HashMap, HashSet, VecDeque};
 #[cfg(feature = "verif-hooks")]
-use std::collections::{HashSet, VecDeque};
+use std::collections::VecDeque;
 use std::convert::TryFrom;
 use std::ops::Add;
 
